@@ -189,6 +189,11 @@ def faithful(result, parsed, dtype, fname_is_path, fname):
         return "gridID attribute %r, the file says %r" % (result.attrs.get("gridID"), parsed.grid_id)
     if fname_is_path and result.attrs.get("file") != fname:
         return "file attribute %r is not the path given %r" % (result.attrs.get("file"), fname)
+    # the whole dictionary: the grid id, plus the path when (and only when) this call was given one - nothing extra, nothing stale
+    want = {"gridID": parsed.grid_id, "file": fname} if fname_is_path else {"gridID": parsed.grid_id}
+    if dict(result.attrs) != want:
+        extra = sorted(set(result.attrs) - set(want))
+        return "attributes %r are not exactly %r (unexpected keys %r)" % (dict(result.attrs), want, extra)
     return None
 
 
